@@ -163,6 +163,182 @@ def regex_defs(text):
     return out
 
 
+# ---------------------------------------------------------------------------------------------------------------------
+# semantic features instead of pinned body texts.  Each recogniser accepts the (behaviour-equivalent) spellings listed in
+# it and nothing else: the WHOLE normalised body has to match, so an extra statement, a changed traversal, operator,
+# operand or constant is a FactError ("shape not recognised"), never a silently kept fact.  Local names are free
+# (back-references), the order of the independent leading `let`s is free.
+# ---------------------------------------------------------------------------------------------------------------------
+ID = r"[a-z_][a-z_0-9]*"
+
+
+def _stmts(text):
+    """top-level statements of a normalised body prefix (split at `;` outside brackets)"""
+    out, d, cur = [], 0, []
+    for ch in text:
+        if ch in "([{":
+            d += 1
+        elif ch in ")]}":
+            d -= 1
+        if ch == ";" and d == 0:
+            out.append("".join(cur).strip())
+            cur = []
+        else:
+            cur.append(ch)
+    if "".join(cur).strip():
+        out.append("".join(cur).strip())
+    return out
+
+
+def non_break_features(body):
+    """NonBreakChecker::has_non_break_word -> (candidate, look-back start, offsets, entries, veto rules, default)"""
+    t = norm(body)
+    m = re.search(r"\bfor\b", t)
+    if not m:
+        raise F.FactError("has_non_break_word: no loop over the look-back offsets")
+    pre, loops = t[:m.start()], t[m.start():]
+    eos = byts = start = None
+    for st in _stmts(pre):
+        mm = re.fullmatch(r"let (%s) = (?:self\.bos \+ length|length \+ self\.bos)" % ID, st)
+        if mm and eos is None:
+            eos = mm.group(1)
+            continue
+        mm = re.fullmatch(r"let (%s) = input\.as_bytes\(\)" % ID, st)
+        if mm and byts is None:
+            byts = mm.group(1)
+            continue
+        if re.fullmatch(r"const LOOKUP_BYTE_LENGTH: usize = [^;]+", st):
+            continue
+        mm = re.fullmatch(r"let (%s) = (.+)" % ID, st)
+        if mm and start is None and eos is not None:
+            e = re.escape(eos)
+            if re.fullmatch(r"(?:std::cmp::|cmp::)?max\((?:LOOKUP_BYTE_LENGTH, %s|%s, LOOKUP_BYTE_LENGTH)\) - LOOKUP_BYTE_LENGTH|%s\.saturating_sub\(LOOKUP_BYTE_LENGTH\)|(?:LOOKUP_BYTE_LENGTH\.max\(%s\)|%s\.max\(LOOKUP_BYTE_LENGTH\)) - LOOKUP_BYTE_LENGTH" % (e, e, e, e, e), mm.group(2)):
+                start = mm.group(1)
+                continue
+        raise F.FactError("has_non_break_word: statement before the loops not recognised: %s" % st)
+    if eos is None or start is None:
+        raise F.FactError("has_non_break_word: candidate offset / look-back start not found")
+    bytes_arg = re.escape(byts) if byts else r"input\.as_bytes\(\)"
+    E, S = re.escape(eos), re.escape(start)
+    head = re.match(r"for (?P<i>%s) in %s\.\.%s \{ for (?P<e>%s) in self\.lexicon\.lookup\((?:%s|input\.as_bytes\(\)), (?P=i)\) \{ (?:let (?P<end>%s) = (?P=e)\.end; )?" % (ID, S, E, ID, bytes_arg, ID), loops)
+    if not head:
+        raise F.FactError("has_non_break_word: not `for offset in start..candidate { for entry in self.lexicon.lookup(bytes, offset) {`")
+    i = re.escape(head.group("i"))
+    END = re.escape(head.group("end")) if head.group("end") else re.escape(head.group("e")) + r"\.end"
+    rest = loops[head.end():]
+    GT = r"(?:%s > %s|%s < %s)" % (END, E, E, END)
+    EQ = r"(?:%s == %s|%s == %s)" % (END, E, E, END)
+    SL = r"input\[%s\.\.%s\]\.chars\(\)" % (i, END)
+    COND = r"(?:%s\.take\(2\)\.count\(\) > 1|1 < %s\.take\(2\)\.count\(\)|%s\.count\(\) > 1|%s\.nth\(1\)\.is_some\(\)|%s\.take\(2\)\.count\(\) >= 2|%s\.take\(2\)\.count\(\) == 2)" % (SL, SL, SL, SL, SL, SL)
+    ORD = r"(?:std::cmp::|cmp::)?Ordering::"
+    decisions = [
+        r"match %s\.cmp\(&%s\) \{ %sGreater => return true, %sEqual => \{ if %s \{ return true; \} \} _ => \{\} \}" % (END, E, ORD, ORD, COND),
+        r"match %s\.cmp\(&%s\) \{ %sGreater => return true, %sEqual if %s => return true, _ => \{\} \}" % (END, E, ORD, ORD, COND),
+        r"if %s \{ return true; \} if %s && %s \{ return true; \}" % (GT, EQ, COND),
+        r"if %s \{ return true; \} if %s \{ if %s \{ return true; \} \}" % (GT, EQ, COND),
+        r"if %s \{ return true; \} else if %s && %s \{ return true; \}" % (GT, EQ, COND),
+        r"if %s \|\| \(?%s && %s\)? \{ return true; \}" % (GT, EQ, COND),
+    ]
+    if not any(re.fullmatch(d + r" \} \} false", rest) for d in decisions):
+        raise F.FactError("has_non_break_word: the decision per dictionary entry is not `end > candidate => true; end == candidate && input[offset..end] has more than one character => true; else go on` followed by `false`")
+    return [("nbw_candidate", "self.bos + length"),
+            ("nbw_lookback_start", "candidate - LOOKUP_BYTE_LENGTH, saturating at 0"),
+            ("nbw_offsets", "every byte offset from the look-back start to the candidate (exclusive), ascending"),
+            ("nbw_entries", "every entry of self.lexicon.lookup(input bytes, offset), in order"),
+            ("nbw_veto_crossing", "entry.end > candidate => true"),
+            ("nbw_veto_ending", "entry.end == candidate && input[offset..entry.end] has more than 1 character => true"),
+            ("nbw_default", "false")]
+
+
+def prohibited_bos_features(body):
+    t = norm(re.sub(r"lazy_static!\s*\{.*?\n\s{4}\}", "", body, flags=re.S))
+    M = ID
+    shapes = [
+        r"if let Some\((?P<m>%s)\) = PROHIBITED_BOS\.find\((?P<s>%s)\)\? \{ Ok\((?P=m)\.end\(\)\) \} else \{ Ok\(0\) \}" % (M, ID),
+        r"match PROHIBITED_BOS\.find\((?P<s>%s)\)\? \{ Some\((?P<m>%s)\) => Ok\((?P=m)\.end\(\)\), None => Ok\(0\),? \}" % (ID, M),
+        r"match PROHIBITED_BOS\.find\((?P<s>%s)\)\? \{ None => Ok\(0\), Some\((?P<m>%s)\) => Ok\((?P=m)\.end\(\)\),? \}" % (ID, M),
+        r"Ok\(PROHIBITED_BOS\.find\((?P<s>%s)\)\?\.map_or\(0, \|(?P<m>%s)\| (?P=m)\.end\(\)\)\)" % (ID, M),
+        r"Ok\(PROHIBITED_BOS\.find\((?P<s>%s)\)\?\.map\(\|(?P<m>%s)\| (?P=m)\.end\(\)\)\.unwrap_or\(0\)\)" % (ID, M),
+        r"let (?P<r>%s) = PROHIBITED_BOS\.find\((?P<s>%s)\)\?; Ok\((?P=r)\.map_or\(0, \|(?P<m>%s)\| (?P=m)\.end\(\)\)\)" % (ID, ID, M),
+    ]
+    if not any(re.fullmatch(x, t) for x in shapes):
+        raise F.FactError("prohibited_bos: not `end of PROHIBITED_BOS.find(s)?, 0 without a match`: %s" % t[:200])
+    return [("prohibited_bos_result", "end of the match of PROHIBITED_BOS.find(s)?, 0 without a match")]
+
+
+def iter_next_features(body):
+    t = norm(body)
+    pos, ln = r"self\.position", r"self\.data\.len\(\)"
+    guard = r"if (?:%s == %s|%s == %s) \{ return None; \} " % (pos, ln, ln, pos)
+    m = re.match(guard, t)
+    if not m:
+        raise F.FactError("SentenceIter::next: guard `position == data.len() => None` not recognised")
+    t = t[m.end():]
+    m = re.match(r"(?:let (?P<sl>%s) = &self\.data\[%s\.\.\]; )?let (?P<rv>%s) = self\.splitter\.get_eos\((?P<arg>[^;]+?), self\.checker\)\.unwrap\(\); " % (ID, pos, ID), t)
+    if not m or not ((m.group("sl") and m.group("arg") == m.group("sl")) or (not m.group("sl") and re.fullmatch(r"&self\.data\[%s\.\.\]" % pos, m.group("arg")))):
+        raise F.FactError("SentenceIter::next: not `rv = splitter.get_eos(&data[position..], checker).unwrap()`")
+    rv = re.escape(m.group("rv"))
+    t = t[m.end():]
+    NEG = r"(?:%s < 0|0 > %s)" % (rv, rv)
+    NONNEG = r"(?:%s >= 0|0 <= %s)" % (rv, rv)
+    ADV = r"(?:%s \+ %s as usize|%s as usize \+ %s)" % (pos, rv, rv, pos)
+    ends = [r"if %s \{ %s \} else \{ %s \}" % (NEG, ln, ADV), r"if %s \{ %s \} else \{ %s \}" % (NONNEG, ADV, ln),
+            r"match %s \{ true => %s, false => %s,? \}" % (NEG, ln, ADV)]
+    m = None
+    for e in ends:
+        m = re.match(r"let (?P<end>%s) = %s; " % (ID, e), t)
+        if m:
+            break
+    if not m:
+        raise F.FactError("SentenceIter::next: not `end = if rv < 0 { data.len() } else { position + rv as usize }`")
+    end = re.escape(m.group("end"))
+    t = t[m.end():]
+    tails = [r"let (?P<r>%s) = %s\.\.%s; let (?P<q>%s) = &self\.data\[(?P=r)\.clone\(\)\]; %s = %s; Some\(\((?P=r), (?P=q)\)\)" % (ID, pos, end, ID, pos, end),
+             r"let (?P<r>%s) = %s\.\.%s; let (?P<q>%s) = &self\.data\[%s\.\.%s\]; %s = %s; Some\(\((?P=r), (?P=q)\)\)" % (ID, pos, end, ID, pos, end, pos, end)]
+    if not any(re.fullmatch(x, t) for x in tails):
+        raise F.FactError("SentenceIter::next: tail `range = position..end; slice = &data[range]; position = end; Some((range, slice))` not recognised")
+    return [("iter_done_when", "position == data.len() => None"),
+            ("iter_detector_call", "rv = splitter.get_eos(&data[position..], checker).unwrap()"),
+            ("iter_negative", "rv < 0 => end = data.len()"),
+            ("iter_nonnegative", "otherwise end = position + rv as usize"),
+            ("iter_yield", "Some((position..end, &data[position..end])); position = end")]
+
+
+def get_eos_loop_features(loop_and_tail):
+    """the candidate loop of get_eos as its ordered checks, and the tail (provisional negative answers)"""
+    t = norm(loop_and_tail)
+    m = re.match(r"for (?P<mat>%s) in SENTENCE_BREAKER\.find_iter\(&s\) \{ let mut (?P<eos>%s) = (?P=mat)\?\.end\(\); " % (ID, ID), t)
+    if not m:
+        raise F.FactError("get_eos: loop head `for mat in SENTENCE_BREAKER.find_iter(&s) { let mut eos = mat?.end();` not recognised")
+    E = re.escape(m.group("eos"))
+    t = t[m.end():]
+    LT = r"(?:%s < s\.len\(\)|s\.len\(\) > %s)" % (E, E)
+    PL = r"parenthesis_level\(&s\[\.\.%s\]\)\?" % E
+    HNB = r"(?P=ck)\.has_non_break_word\(input, %s\)" % E
+    steps = [
+        ("veto: parenthesis_level(&s[..eos])? > 0 => continue", r"if (?:%s > 0|0 < %s|%s != 0|%s >= 1) \{ continue; \} " % (PL, PL, PL, PL)),
+        ("extend: eos < s.len() => eos += prohibited_bos(&s[eos..])?", r"if %s \{ %s \+= prohibited_bos\(&s\[%s\.\.\]\)\?; \} " % (LT, E, E)),
+        ("veto: ITEMIZE_HEADER.is_match(&s)? => continue", r"if ITEMIZE_HEADER\.is_match\(&s\)\? \{ continue; \} "),
+        ("veto: eos < s.len() && is_continuous_phrase(&s, eos)? => continue", r"if %s && is_continuous_phrase\(&s, %s\)\? \{ continue; \} " % (LT, E)),
+        ("veto: checker present and has_non_break_word(input, eos) => continue",
+         r"(?:if let Some\((?P<ck>%s)\) = checker \{ if %s \{ continue; \} \} |if checker\.map_or\(false, \|(?P<ck2>%s)\| (?P=ck2)\.has_non_break_word\(input, %s\)\) \{ continue; \} |if checker\.is_some_and\(\|(?P<ck3>%s)\| (?P=ck3)\.has_non_break_word\(input, %s\)\) \{ continue; \} )" % (ID, HNB, ID, E, ID, E)),
+        ("accept: return Ok(eos as isize)", r"return Ok\(%s as isize\); \} " % E),
+    ]
+    feats = []
+    for name, rx in steps:
+        mm = re.match(rx, t)
+        if not mm:
+            raise F.FactError("get_eos: expected step `%s` at: %s" % (name, t[:120]))
+        feats.append(name)
+        t = t[mm.end():]
+    t = re.sub(r"lazy_static!\s*\{\.\.\} ", "", t)
+    tail = r"if input_exceeds_limit \{ if let Some\((?P<m>%s)\) = SPACES\.find\(&s\)\? \{ return Ok\(-\((?P=m)\.end\(\) as isize\)\); \} \} Ok\(-\(s\.len\(\) as isize\)\)" % ID
+    if not re.fullmatch(tail, t):
+        raise F.FactError("get_eos: tail (provisional boundary: end of SPACES.find(&s) negated when the input exceeds the window, else -(s.len())) not recognised: %s" % t[:160])
+    feats.append("no candidate accepted: input_exceeds_limit and SPACES.find(&s)? = Some(m) => Ok(-(m.end())); otherwise Ok(-(s.len()))")
+    return feats
+
+
 def gen():
     raw = F.src(DET)
     t = F.strip_comments(raw, canonical=False)
@@ -243,10 +419,12 @@ def gen():
     head = re.sub(r"lazy_static!\s*\{.*?\n\s{8}\}", "lazy_static!{..}", head, flags=re.S)
     out.append("Definition get_eos_head : string := %s.\n" % coq_string(norm(head)))
     tail = re.sub(r"lazy_static!\s*\{.*?\n\s{12}\}", "lazy_static!{..}", body[m.start():], flags=re.S)
-    out.append("Definition get_eos_loop_and_tail : string := %s.\n" % coq_string(norm(tail)))
-    out.append("Definition has_non_break_word_body : string := %s.\n" % coq_string(norm(F.fn_body(t, "has_non_break_word", DET))))
+    out.append("Definition get_eos_steps : list string := [ %s ].\n" % ";\n    ".join(coq_string(x) for x in get_eos_loop_features(tail)))
+    for k, v in non_break_features(F.fn_body(t, "has_non_break_word", DET)):
+        out.append("Definition %s : string := %s.\n" % (k, coq_string(v)))
     out.append("Definition parenthesis_level_body : string := %s.\n" % coq_string(norm(re.sub(r"lazy_static!\s*\{.*?\n\s{4}\}", "lazy_static!{..}", F.fn_body(t, "parenthesis_level", DET), flags=re.S))))
-    out.append("Definition prohibited_bos_body : string := %s.\n" % coq_string(norm(re.sub(r"lazy_static!\s*\{.*?\n\s{4}\}", "lazy_static!{..}", F.fn_body(t, "prohibited_bos", DET), flags=re.S))))
+    for k, v in prohibited_bos_features(F.fn_body(t, "prohibited_bos", DET)):
+        out.append("Definition %s : string := %s.\n" % (k, coq_string(v)))
     m = re.search(r"pub\s+fn\s+new\(lexicon[^)]*\)\s*->\s*Self\s*\{\s*NonBreakChecker\s*\{\s*lexicon\s*,\s*bos\s*:\s*(\d+)\s*\}", t)
     if not m:
         raise F.FactError("NonBreakChecker::new no longer initialises bos with a literal")
@@ -254,7 +432,8 @@ def gen():
 
     # the iterator
     sp = F.strip_comments(F.src(SPL), canonical=False)
-    out.append("Definition iter_next_body : string := %s.\n" % coq_string(norm(F.fn_body(sp, "next", SPL))))
+    for k, v in iter_next_features(F.fn_body(sp, "next", SPL)):
+        out.append("Definition %s : string := %s.\n" % (k, coq_string(v)))
     if re.search(r"\.bos\s*=", sp):
         raise F.FactError("sentence_splitter.rs now assigns NonBreakChecker::bos (the model keeps it at its initial value)")
     m = re.search(r"pub\s+fn\s+new\(\)\s*->\s*Self\s*\{\s*SentenceSplitter\s*\{\s*detector\s*:\s*SentenceDetector::new\(\)\s*,\s*checker\s*:\s*None\s*,?\s*\}", sp)
@@ -269,6 +448,12 @@ def gen():
     call = r"\((?:[^(){};]|\([^(){};]*\))*\)"
     ctors = re.findall(r"SentenceSplitter::[a-z_]+" + call + r"(?:\s*\.\s*[a-z_]+" + call + r")*", cli)
     out.append("Definition cli_splitter_ctors : list string := [ %s ].\n" % "; ".join(coq_string(norm(c)) for c in ctors))
-    loops = re.findall(r"for\s+[^{]*?\bin\s+self\.splitter\.split\([^{]*?\)\s*\{", cli)
+    loops = []
+    for mm in re.finditer(r"for\s+(\([^()]*\))\s+in\s+self\s*\.\s*splitter\s*\.\s*split\(([^(){}]*)\)\s*\{|self\s*\.\s*splitter\s*\.\s*split\(([^(){}]*)\)\s*\.\s*for_each\(\s*\|(\([^()|]*\))\|", cli):
+        # a `for` loop and `.for_each(..)` visit the sentences in the same order, one call per sentence
+        pat, arg = (mm.group(1), mm.group(2)) if mm.group(1) else (mm.group(4), mm.group(3))
+        loops.append("for %s in self.splitter.split(%s) {" % (pat.strip(), arg.strip()))
+    if len(re.findall(r"\.\s*split\(", cli)) != len(loops):
+        raise F.FactError("analysis.rs: a use of splitter.split(..) that is neither a for loop nor for_each over the sentences")
     out.append("Definition cli_split_loops : list string := [ %s ].\n" % "; ".join(coq_string(norm(c)) for c in loops))
     return "".join(out)
